@@ -7,7 +7,7 @@ ROOT = os.path.dirname(os.path.dirname(os.path.abspath(__file__)))
 want = set(sys.argv[1:])
 def find_base(patch):
     """newest commit of /repo main at which the patch applies (later fix: commits may have changed its context)"""
-    wt = "/tmp/reseed-findbase"
+    wt = "/tmp/reseed-findbase-%d" % os.getpid()
     subprocess.run(["git", "-C", "/repo", "worktree", "add", "-q", "--detach", wt, "HEAD"], capture_output=True)
     try:
         for c in subprocess.run(["git", "-C", "/repo", "rev-list", "HEAD"], capture_output=True, text=True).stdout.split():
